@@ -198,6 +198,7 @@ def run(ctx: Ctx):
         st.hit("op", "decode")
         st.hit("outcome", "decode-" + ("err-" + got["err"] if "err" in got else ("wellformed" if wf else "truncating")))
 
+    run_camera_usage(ctx)
     model = run_model_parallel("C07", lines)
     for ln, m, i in zip(lines, model, impl):
         st.traces_validated += 1
@@ -209,6 +210,141 @@ def run(ctx: Ctx):
     st.sample({"encode_lengths": [len(v) for _, v in enc_cases[510]], "impl": impl[510]["ok"][:40] + "..."})
     st.sample({"decode_input": hx(dec_cases[0]), "impl": impl[len(enc_cases)], "model": model[len(enc_cases)]})
     st.sample({"encode_items_lengths": [[t, len(v)] for t, v in enc_cases[-2]], "agree": model[len(enc_cases) - 2] == impl[len(enc_cases) - 2]})
+
+
+# ------------------------------------------------------------------ TLV8 at its call sites (camera.py)
+
+_CAM_OPTIONS = {
+    "stream_count": 2,
+    "video": {"codec": {"profiles": [b"\x00"], "levels": [b"\x00"]}, "resolutions": []},
+    "audio": {"codecs": [{"type": "OPUS", "samplerate": 24}, {"type": "AAC-eld", "samplerate": 16}]},
+    "srtp": True,
+    "address": "192.168.1.226",
+}
+# a SelectedRTPStreamConfiguration start request as sent by iOS (session ac cc 6c c1 ...), from the HAP traces
+_SEL_START = (
+    "ARUCAQEBEKzMbMEFY0UVjal0tFCQBpECNAEBAAIJAQEAAgEAAwEAAwsBAoAC"
+    "AgJoAQMBHgQXAQFjAgQr66FSAwKEAAQEAAAAPwUCYgUDLAEBAgIMAQEBAgEA"
+    "AwEBBAEeAxYBAW4CBMUInmQDAhgABAQAAKBABgENBAEA"
+)
+
+
+class _CamDriver:
+    def __init__(self):
+        from pyhap.loader import Loader
+
+        self.loader = Loader()
+
+    def publish(self, *a, **k):
+        pass
+
+    def add_job(self, target, *args):
+        import asyncio
+
+        loop = asyncio.new_event_loop()
+        try:
+            loop.run_until_complete(target(*args))
+        finally:
+            loop.close()
+
+
+def run_camera_usage(ctx: Ctx):
+    """The property at the places where pyhap itself encodes / decodes TLV8 for controllers (camera.py):
+    what is served must be the well-formed TLV8 of what was configured, and a well-formed request must be
+    read field by field whatever the item order. Judged with the reference codec only (no model)."""
+    import base64
+    import copy
+    import importlib
+    from uuid import UUID
+
+    import pyhap.camera as cam
+
+    cam = importlib.reload(cam)
+    rng = ctx.rng
+    st = ctx.stats
+    drv = _CamDriver()
+    # (a) SupportedVideoStreamConfiguration with n resolutions
+    for n in [1, 8, 12, 13, 14, 20, 33, 48] + [rng.randrange(1, 60) for _ in range(ctx.n(4, 40))]:
+        opts = copy.deepcopy(_CAM_OPTIONS)
+        res = [[160 + 16 * i, 90 + 9 * i, 15 + (i % 3) * 15] for i in range(n)]
+        opts["video"]["resolutions"] = res
+        acc = cam.Camera(opts, drv, "Camera")
+        ch = acc.get_service("CameraRTPStreamManagement").get_characteristic("SupportedVideoStreamConfiguration")
+        rep = {"kind": "camera-video-config", "resolutions": n}
+        for how, served in (("get_value", ch.get_value()), ("to_HAP", ch.to_HAP().get("value"))):
+            ok, why = True, ""
+            try:
+                raw = base64.b64decode(served, validate=True)
+                top = ref.decode_list(raw)
+                inner = ref.decode_list(top[0][1]) if len(top) == 1 and top[0][0] == 1 else None
+                got = []
+                for t, v in inner or []:
+                    if t == 3:
+                        d = ref.merge_dict(ref.decode_list(v))
+                        got.append([int.from_bytes(d[1], "little"), int.from_bytes(d[2], "little"), int.from_bytes(d[3], "little")])
+                if inner is None or got != res:
+                    ok, why = False, f"decodes to {len(got)} of {n} configured resolutions"
+            except Exception as ex:  # noqa: BLE001
+                ok, why = False, f"{type(ex).__name__}: {ex}"
+            if not ok:
+                ctx.fail(
+                    "C07:served-tlv8-value-not-the-configured-items",
+                    f"SupportedVideoStreamConfiguration ({how}) for {n} resolutions is not the well-formed TLV8 of the configuration: {why}",
+                    rep,
+                    size=n,
+                )
+        st.case(["cam-video", n], n > 8)
+        st.hit("op", "camera:video-config")
+    # (b) start / stop with the session-control items in either order (and an extra item)
+    sid = UUID("accc6cc1-0563-4515-8da9-74b450900691")
+    raw = base64.b64decode(_SEL_START)
+    top = ref.decode_list(raw)
+    sess_items = ref.decode_list(top[0][1])  # [(2, cmd), (1, id)] as captured
+    idb = dict(sess_items)[1]
+    orders = {
+        "command-first": [(2, None), (1, idb)],
+        "identifier-first": [(1, idb), (2, None)],
+        "identifier-first+extra": [(1, idb), (2, None), (9, b"\x01")],
+        "extra-after-id": [(2, None), (1, idb), (9, b"xy")],
+    }
+    for name, order in orders.items():
+        class Rec(cam.Camera):
+            started, stopped = [], []
+
+            async def start_stream(self, session_info, stream_config):
+                Rec.started.append(session_info["id"])
+                return True
+
+            async def stop_stream(self, session_info):
+                Rec.stopped.append(session_info["id"])
+
+        Rec.started, Rec.stopped = [], []
+        opts = copy.deepcopy(_CAM_OPTIONS)
+        opts["video"]["resolutions"] = [[640, 360, 30]]
+        acc = Rec(opts, drv, "Camera")
+        acc.sessions[sid] = {"id": sid, "stream_idx": 0, "address": "192.168.1.114", "v_port": 50483,
+                             "v_srtp_key": "k", "a_port": 54956, "a_srtp_key": "k", "process": None}
+
+        def req(cmd, rest):
+            sess = ref.encode([(t, (bytes([cmd]) if v is None else v)) for t, v in order])
+            return base64.b64encode(ref.encode([(1, sess)] + rest)).decode()
+
+        rep = {"kind": "camera-session-order", "order": name}
+        try:
+            acc.set_selected_stream_configuration(req(1, top[1:]))
+            acc.set_selected_stream_configuration(req(0, []))
+            err = None
+        except Exception as ex:  # noqa: BLE001
+            err = f"{type(ex).__name__}: {ex}"
+        if err or Rec.started != [sid] or Rec.stopped != [sid] or sid in acc.sessions:
+            ctx.fail(
+                "C07:wellformed-request-misread-at-call-site",
+                f"start/stop request with session items in order '{name}': started {Rec.started}, stopped {Rec.stopped}, "
+                f"session left: {sid in acc.sessions}, error: {err}",
+                rep,
+            )
+        st.case(["cam-session", name], True)
+        st.hit("op", "camera:session-order")
 
 
 def _short(x):
@@ -236,6 +372,12 @@ def search(ctx: Ctx):
 
 def replay(ctx: Ctx, r):
     tlv = _tlv()
+    if r["kind"].startswith("camera"):
+        run_camera_usage(ctx)
+        for f in ctx.failures:
+            print("FAILS:", f.signature, f.description)
+        print("verdict:", "property violated on this input" if ctx.failures else "holds on this input")
+        return 1 if ctx.failures else 0
     if r["kind"] == "encode":
         items = [(t, bytes.fromhex(v)) for t, v in r["items"]]
         enc = impl_encode(tlv, items)
